@@ -39,7 +39,10 @@ def main():
             print(f"  I {o.rule} {o.what[:120]} :: {str(o.detail)[:200]}")
         for n in r.notes:
             print("  N", n[-600:])
-    shutil.rmtree(t, ignore_errors=True)
+    if not os.environ.get("KEEP"):
+        shutil.rmtree(t, ignore_errors=True)
+    else:
+        print("kept", t)
 
 
 if __name__ == "__main__":
